@@ -155,6 +155,18 @@ func generate() {
 		do("syncquery 9")
 	}
 
+	// ---- field writers (ptt.ChangeEmail) between money operations: only the Email field of that record changes
+	for _, u := range slots {
+		seed++
+		do(resetLine(nSlot, 0, seed, baseBalances(), nil))
+		do(fmt.Sprintf("de %d 5", u))
+		do(fmt.Sprintf("chemail %d a%d@x.org", u, seed))
+		do(fmt.Sprintf("get %d", u))
+		do(fmt.Sprintf("de %d -2", u))
+		do(fmt.Sprintf("chemail %d b@y", u))
+		do(fmt.Sprintf("syncquery %d", u))
+	}
+
 	// ---- account expiry: the clean-up sweep run from a registration on a full table with a stale .fresh
 	//      (tryCleanUser -> checkAndExpireAccount -> killUser) is a whole-record writer; every slot is judged after it
 	{
@@ -361,6 +373,10 @@ func generate() {
 				do(fmt.Sprintf("newuser rn%dx%d %d", h, k, []int64{0, 5, int64(r.Intn(100000)), -7, maxI}[r.Intn(5)]))
 				continue
 			}
+			if r.Intn(25) == 0 {
+				do(fmt.Sprintf("chemail %d r%d@h%d.tw", u, k, h))
+				continue
+			}
 			switch r.Intn(13) {
 			case 10:
 				if r.Bool() {
@@ -440,6 +456,7 @@ func generate() {
 			do(fmt.Sprintf("load %d", u))
 			do(fmt.Sprintf("permupdate %d 77 5", u))
 			do(fmt.Sprintf("syncquery %d", u))
+			do(fmt.Sprintf("chemail %d m@f", u))
 		}
 		do("loaduhash 1")
 		do("get 1")
@@ -492,6 +509,7 @@ func generate() {
 		"reset 50 0 1 " + csv(base) + " " + csv(base) + " free=", "reset 50 0 1 " + csv(base) + " " + csv(base) + " free=0",
 		"reset 50 0 1 " + csv(base) + " " + csv(base) + " free=3,3", "reset 50 0 1 " + csv(base) + " " + csv(base) + " fre=3",
 		"resetconc 4 10", "resetconc x 10 1",
+		"chemail", "chemail 1", "chemail 1 a_b", "chemail x a@b", "chemail 1 a@b c", "resetconcfld 3 5",
 		"age", "age 1 2", "age 0 1 0", "age 1 x 0", "age 1 1 4294967296", "expire", "expire 1a 5", "expire ab", "expire ab 5 1 0",
 		"expire ab 5 1,2 0 zz", "expire ab 5 1 0 00",
 		"config", "config 2", "config 1 1", "loaduhash", "loaduhash 2", "loaduhash 0 1", "pokerec 1 = ", "pokerec 0 = 5",
